@@ -188,7 +188,71 @@ def hole_removal_shard(prop, judge):
                     raise
                 except Exception as e:  # noqa: BLE001
                     acc.violation("context-exit-raises", f"{prop}:holes:context-raises:{type(e).__name__}", wit, f"{type(e).__name__}: {e}")
-    acc.sample({"hole files": "3 live blocks (one opaque), hole before the 1st / 2nd / 3rd, 4 and 6 slots; every sequence of 1-3 removals"}, 1)
+    # requests the library refuses on such files (add / replace / setter: C07 judges the refusal).  Whether it
+    # refuses is not this check's business; *if* it accepts, the result is judged like any other successful call.
+    for n, recs, hole in hole_layouts():
+        base = R.build_file(n, recs, hole_at=hole, junk=lambda k: bytes((i * 5 + 0x61) % 255 + 1 for i in range(k)))
+        kinds = [r["type"] for r in recs]
+        for first_removed in [None] + kinds:
+            attempts = [("add", R.T_DATA3D), ("add", R.T_OPT), ("replace", R.T_EVENTS), ("replace", R.T_EMG), ("set", R.T_EMG), ("set", R.T_FORCE3D)]
+            for what, t in attempts:
+                if first_removed == t and what == "replace":
+                    continue
+                with open(path, "wb") as f:
+                    f.write(base)
+                env.reset_clock()
+                wit = {"holes": True, "n": n, "hole": hole, "order": [first_removed] if first_removed else [], "attempt": [what, t]}
+                acc.n["states"] += 1
+                acc.n["evaluations"] += 1
+                acc.n["transitions"] += 1
+                try:
+                    with ns.tdf.Tdf(path).allow_write() as f:
+                        removed = []
+                        if first_removed is not None:
+                            f.remove_block(ns.block.BlockType(first_removed))
+                            removed = [first_removed]
+                        before = open(path, "rb").read()
+                        try:
+                            with env.time_limit(10):
+                                if what == "add":
+                                    f.add_block(kdriver.make_block(t, 0))
+                                elif what == "replace":
+                                    f.replace_block(kdriver.make_block(t, 1))
+                                else:
+                                    setattr(f, kdriver.SETTERS[t], kdriver.make_block(t, 1))
+                            accepted = True
+                        except Exception:  # noqa: BLE001
+                            accepted = False
+                        data = open(path, "rb").read()
+                        if not accepted:
+                            acc.outcomes[f"holes:{what}:refused"] += 1
+                            acc.n["traces"] += 1
+                            continue
+                        try:
+                            parsed = R.parse_file(data)
+                        except R.LayoutError:
+                            parsed = None
+                        # what the file must hold if the request was served: the survivors plus the new block
+                        vnew = 0 if what == "add" else 1
+                        sp, payload, c, m = kdriver.variant(t, vnew)
+                        newrec = dict(type=t, format=sp["format"], payload=payload, comment=None, ctime=c, mtime=m)
+                        recs2 = [r for r in recs if r["type"] not in removed and r["type"] != t] + [newrec]
+                        ctx = dict(n=n, records=recs2, removed=[x for x in removed if x != t], data=data, parsed=parsed, tdf=f, path=path)
+                        bad = judge(ctx)
+                        if bad:
+                            clause, detail = bad[0]
+                            acc.violation(clause, f"{prop}:holes:{clause}:accepted-{what}", wit,
+                                          f"{n} slots, hole before live block {hole}, after removing {[R.NAMES.get(x, x) for x in removed]}: "
+                                          f"{what}({R.NAMES.get(t, t)}) was accepted and then: {detail}")
+                        else:
+                            acc.outcomes[f"holes:{what}:accepted-and-sound"] += 1
+                            acc.n["traces"] += 1
+                except core.Violation:
+                    raise
+                except Exception as e:  # noqa: BLE001
+                    acc.violation("context-exit-raises", f"{prop}:holes:context-raises:{type(e).__name__}", wit, f"{type(e).__name__}: {e}")
+    acc.sample({"hole files": "3 live blocks (one opaque), hole before the 1st / 2nd / 3rd, 4 and 6 slots; every sequence of 1-3 removals; "
+                              "add / replace / setter attempts (judged only if the library accepts them)"}, 1)
     return acc
 
 
